@@ -26,6 +26,9 @@ import os
 import sys
 import time
 
+import tatsu.peg  # noqa: F401  (imported HERE so that every forked worker runs the same engine code)
+import tatsu.exceptions  # noqa: F401
+
 from bounded import grammars as G
 from bounded import specpeg as S
 from bounded.common import JOBS, Budget, bitem, chunked, pmap
@@ -685,10 +688,28 @@ def run(tier='quick', seed=0, info=None):
                       "length <= 3 plus 60 random inputs of length <= 5 over {a,b,' '}",
                bound='<= 7 nodes per body, input length <= 5 (sampled)', exhaustive=False)
             rnd += 1
+    head = repo_head()
+    for it in items:
+        it.extra['repo_head'] = head
     if info is not None:
-        info.setdefault('bounded', []).append({'run': 'bC01', 'tier': tier, 'wall_s': round(budget.spent(), 1)})
+        info.setdefault('bounded', []).append({'run': 'bC01', 'tier': tier, 'wall_s': round(budget.spent(), 1),
+                                               'repo_head': head})
     run.summary = summary
     return items
+
+
+def repo_head():
+    """the engine under test: directory of the imported tatsu and its git HEAD (+ '-dirty')"""
+    import subprocess
+    root = os.path.dirname(os.path.dirname(os.path.abspath(tatsu.__file__)))
+    try:
+        sha = subprocess.run(['git', '-C', root, 'rev-parse', '--short', 'HEAD'], capture_output=True, text=True,
+                             timeout=10).stdout.strip()
+        dirty = subprocess.run(['git', '-C', root, 'status', '--porcelain', '--', 'tatsu'], capture_output=True,
+                               text=True, timeout=10).stdout.strip()
+        return f'{root}@{sha}{"-dirty" if dirty else ""}'
+    except Exception:  # noqa: BLE001
+        return root
 
 
 def print_summary(items, summary, wall):
